@@ -462,14 +462,15 @@ pub fn compute_entity_manifest(
         let request_envs = typechecker.typecheck_by_request_env(policy.template());
         for (request_env, policy_check) in request_envs {
             let new_primary_slice = match policy_check {
-                PolicyCheck::Success(typechecked_expr) => {
+                // A policy the typechecker finds irrelevant (always `false`) is
+                // analyzed like any other one (as level validation does): its
+                // type may rest on data, e.g. the action hierarchy, that
+                // evaluation over the slice only sees if the slice retains it.
+                PolicyCheck::Success(typechecked_expr)
+                | PolicyCheck::Irrelevant(_, typechecked_expr) => {
                     // compute the trie from the typechecked expr
                     // using static analysis
                     entity_manifest_from_expr(&typechecked_expr).map(|val| val.global_trie)
-                }
-                PolicyCheck::Irrelevant(_, _) => {
-                    // this policy is irrelevant, so we need no data
-                    Ok(RootAccessTrie::new())
                 }
 
                 #[expect(
